@@ -55,7 +55,69 @@ def universe():
          {'$df': [IDX, ['a', 'b'], [[1.0, 2.0], [3.0, nan(16)], [5.0, 6.0]]]}, {'$df': [IDX[:2], ['a', 'b'], [[1.0, 2.0], [3.0, 4.0]]]}, {'$df': [IDX, ['a'], [[1.0], [2.0], [3.0]]]}, {'$df': [[], ['a', 'b'], []]}, {'$df': [[], ['a'], []]}, {'$df': [[], ['a', 'c'], []]}, {'$frame': [[1, 2], [], [[], []]]}, {'$frame': [[3, 4], [], [[], []]]}, {'$sr': [[], [], 'float64']},
          {'$frame': [[0, 1], ['a'], [[1], [1]]]}, {'$frame': [[0, 1], [0], [[1], [1]]]},
          [{'$ts': [IDX, [1.0, 2.0, 3.0]]}], {'a': {'$ts': [IDX, [1.0, 2.0, nan(17)]]}}, {'a': A('float64', [1.0, nan(18)])}, [A('int64', [1, 2]), 1], T(A('int64', [1, 2]), 1), {'a': A('int64', [1, 2]), 'b': [nan(19)]}]
+    # integers that round to one double, as scalars and inside every container kind
+    B = 2 ** 53
+    u += [B, B + 1, float(B), {'$np': ['int64', B + 1]}, {'$np': ['int64', B]}, [B], [B + 1], T(B + 1), {'a': B}, {'a': B + 1}, A('int64', [B, 1]), A('int64', [B + 1, 1]),
+          {'$sr': [[0, 1], [B, 1], 'int64']}, {'$sr': [[0, 1], [B + 1, 1], 'int64']}, 1577836800000000000, 1577836800000000001]
+    # missing-value markers are values too: None, NaN and NaT differ from one another cell by cell
+    u += [{'$sr': [[0, 1], [None, 'a'], 'object']}, {'$sr': [[0, 1], [nan(30), 'a'], 'object']}, {'$sr': [[0, 1], [None, None], 'object']}, {'$sr': [[0, 1], [nan(31), nan(32)], 'object']},
+          {'$frame': [[0, 1], ['a'], [[None], [1]], 'object']}, {'$frame': [[0, 1], ['a'], [[nan(33)], [1]], 'object']}, {'$sr': [[0, 1], [nan(34), nan(35)], 'float64']},
+          {'$sr': [[0, 1], [None, None], 'datetime64[ns]']}, {'$sr': [[0, 1], [None, '2020-01-01'], 'datetime64[ns]']}]
     return u
+
+
+def run_views(case, ctx):
+    """two equally shaped windows on ONE buffer: equality is decided by the cells, not by who owns the memory"""
+    from pyg_base import eq
+    base = np.array(case['base'], dtype=case['dtype']).reshape(case['shape'])
+    def win(w):
+        v = base
+        for ax, (a, b) in enumerate(w):
+            sl = [slice(None)] * base.ndim
+            sl[ax] = a if b is None else slice(a, b)
+            v = v[tuple(sl)] if b is not None else None
+            if v is None:
+                break
+        return v
+    def window(w):
+        idx = tuple((a if b is None else slice(a, b)) for a, b in w)
+        return base[idx]
+    x, y = window(case['w1']), window(case['w2'])
+    wrap = {'none': lambda v: v, 'list': lambda v: [v, 1], 'dict': lambda v: {'a': v}, 'tuple': lambda v: (0, v)}[case['wrap']]
+    exp = x.shape == y.shape and bool(np.array_equal(np.array(x), np.array(y), equal_nan=x.dtype.kind == 'f'))
+    for a, b, what in ((x, y, 'views'), (y, x, 'views swapped'), (x, y.copy(), 'view vs copy'), (x.copy(), y.copy(), 'copies')):
+        st, r = ctx.call(eq, wrap(a), wrap(b))
+        ctx.check('eq_reference_model', st == 'ok' and isbool(r) and bool(r) == exp, lambda: 'eq(%s) of windows %s and %s of one %s buffer %s = %s %r, the cells say %s' % (what, case['w1'], case['w2'], case['dtype'], case['base'], st, r, exp))
+    ctx.cls('views:%s' % ('equal' if exp else 'different'))
+
+
+def gen_views(rng):
+    dtype = rng.choice(['int64', 'float64', 'int64'])
+    if rng.random() < 0.5:
+        n = rng.randint(3, 8)
+        base = [rng.choice([1, 2, 3]) for _ in range(n)] if rng.random() < 0.7 else [7] * n
+        L = rng.randint(1, n - 1)
+        s1, s2 = rng.randint(0, n - L), rng.randint(0, n - L)
+        case = {'shape': [n], 'w1': [[s1, s1 + L]], 'w2': [[s2, s2 + L]]}
+    else:
+        r, c = rng.randint(2, 4), rng.randint(2, 4)
+        base = [rng.choice([1, 2]) for _ in range(r * c)]
+        if rng.random() < 0.3:
+            base = ([rng.choice([1, 2]) for _ in range(c)]) * r       # identical rows: different windows, equal cells
+        m = rng.choice(['rows', 'cols', 'rowslice'])
+        if m == 'rows':
+            w1, w2 = [[rng.randrange(r), None]], [[rng.randrange(r), None]]
+        elif m == 'cols':
+            w1, w2 = [[0, r], [rng.randrange(c), None]], [[0, r], [rng.randrange(c), None]]
+        else:
+            L = rng.randint(1, r - 1)
+            s1, s2 = rng.randint(0, r - L), rng.randint(0, r - L)
+            w1, w2 = [[s1, s1 + L]], [[s2, s2 + L]]
+        case = {'shape': [r, c], 'w1': w1, 'w2': w2}
+    if dtype == 'float64':
+        base = [float(v) for v in base]
+    case.update(kind='views', dtype=dtype, base=base, wrap=rng.choice(['none', 'none', 'list', 'dict', 'tuple']))
+    return case
 
 
 def kind(x):
@@ -97,7 +159,15 @@ def plain_shape(x):
 
 
 def _sc_nan(v):
+    if isinstance(v, (np.datetime64, np.timedelta64)):
+        return 'NaT' if np.isnat(v) else False
     return isinstance(v, (float, np.floating)) and v != v
+
+
+def _cells(values):
+    """cells of an array as python/numpy scalars; datetime cells stay numpy scalars so that NaT stays NaT"""
+    flat = values.reshape(-1)
+    return list(flat) if flat.dtype.kind in 'mM' else flat.tolist()
 
 
 def model_eq(x, y):
@@ -112,14 +182,14 @@ def model_eq(x, y):
     if kx.startswith('dict'):
         return type(x) is type(y) and set(x) == set(y) and all(model_eq(dict.__getitem__(x, k), dict.__getitem__(y, k)) for k in x)
     if kx == 'ndarray':
-        return x.shape == y.shape and all(model_eq(a, b) for a, b in zip(x.reshape(-1).tolist(), y.reshape(-1).tolist()))
+        return x.shape == y.shape and all(model_eq(a, b) for a, b in zip(_cells(x), _cells(y)))
     if kx == 'Series':
-        return len(x) == len(y) and list(x.index) == list(y.index) and all(model_eq(a, b) for a, b in zip(x.values.tolist(), y.values.tolist()))
+        return len(x) == len(y) and list(x.index) == list(y.index) and all(model_eq(a, b) for a, b in zip(_cells(x.values), _cells(y.values)))
     if kx == 'DataFrame':
         return x.shape == y.shape and list(x.index) == list(y.index) and list(x.columns) == list(y.columns) and \
-            all(model_eq(a, b) for a, b in zip(x.values.reshape(-1).tolist(), y.values.reshape(-1).tolist()))
+            all(model_eq(a, b) for a, b in zip(_cells(x.values), _cells(y.values)))
     if _sc_nan(x) or _sc_nan(y):
-        return _sc_nan(x) and _sc_nan(y)
+        return _sc_nan(x) == _sc_nan(y)       # NaN matches NaN, NaT matches NaT, neither matches the other or anything else
     try:
         r = x == y
         return bool(r) if isinstance(r, (bool, np.bool_)) else False
@@ -277,6 +347,8 @@ def run_case(case, ctx):
     if k == 'universe':
         terms = universe() if case['which'] == 'fixed' else case['terms']
         laws(ctx, terms, 'universe:' + case['which'])
+    elif k == 'views':
+        run_views(case, ctx)
     elif k in ('pair', 'triple'):
         laws(ctx, [case[x] for x in ('x', 'y', 'z') if x in case], 'replay')
     else:
@@ -308,6 +380,10 @@ def run(spec, ctx):
         if any(nan_depth(t) >= 2 for t in terms):
             ctx.cls('nan_at_depth>=2')
         ctx.run_case(case, run_case)
+        for j in range(40):
+            vc = gen_views(random.Random('C14v/%d/%d/%d/%d' % (spec['seed'], spec['shard'], i, j)))
+            ctx.case(vc, nontrivial=vc['w1'] != vc['w2'])
+            ctx.run_case(vc, run_case)
         if ctx.full():
             break
 
